@@ -451,8 +451,3 @@ Proof.
     intros n Hn p Hfp e He q Hq. apply (multi_new_false _ _ Hk n Hn p Hfp e He q Hq).
   - unfold upd in Hok. rewrite Hp in Hok. discriminate.
 Qed.
-
-(* every model a history reaches is well formed, so the theorem applies at every accepted step *)
-Theorem run_steps_again : forall steps os M, wf_model (m_nss M) ->
-  Forall (fun r => wf_model (m_nss (snd r))) (run_steps M steps os).
-Proof. exact run_steps_wf. Qed.
